@@ -313,7 +313,7 @@ func propC10(j *Job) {
 	// a T3-rtx expiry is a loss signal: it is acted upon (window collapsed, retransmission) also
 	// when a SACK without cumulative progress is handled in the same instant (scenario of C19)
 	for _, mode := range stdModes()[:2] {
-		j.Explore(fmt.Sprintf("VE/%s", mode.Name), validExpiryScenario(withBase(mode.A, 1191, 0xFFFFFFFC, 4000), withBase(mode.B, 1191, 3, 4000)), Budget{D: 1}, nil)
+		j.Explore(fmt.Sprintf("VE/%s", mode.Name), validExpiryScenario(withBase(mode.A, 1191, 0xFFFFFFFC, 4000), withBase(mode.B, 1191, 3, 4000)), Budget{D: map[bool]int{false: 1, true: 2}[j.Thorough()]}, nil)
 	}
 	depth := 4
 	if j.Thorough() {
